@@ -625,4 +625,131 @@ example :
       [⟨sHost, [[120]]⟩, ⟨sUserAgent, [[]]⟩, ⟨[104, 111, 115, 116], [[121]]⟩] } [104] ⟨false, false, 0⟩))
     = [(sHost, [104]), ([104, 111, 115, 116], [121])] := by decide
 
+/-! ### multi-valued headers: value order within a name -/
+
+/-- the key/value GROUPS the HTTP/1.1 writer emits are a permutation of: own fields, caller
+fields, extra fields (group level; `wire_set_h1` is the line-level consequence). -/
+theorem h1Fields_perm (r : WReq) (host : Bytes) (f : Framing) :
+    (h1Fields r host f).Perm
+      (ownFieldsH1 r host f ++ callerFields r.header reqWriteExcludeHeader ++ callerFields r.extra []) := by
+  have hcol : ∀ mode : Bool,
+      (ownFieldsH1 r host f ++ writeSubset r.header reqWriteExcludeHeader mode ++
+        writeSubset r.extra [] mode).Perm
+      (ownFieldsH1 r host f ++ callerFields r.header reqWriteExcludeHeader ++ callerFields r.extra []) :=
+    fun mode => List.Perm.append (List.Perm.append (List.Perm.refl _) (writeSubset_perm _ _ _))
+      (writeSubset_perm _ _ _)
+  unfold h1Fields
+  simp only
+  split
+  · refine (sort_perm _ _).trans ?_
+    simpa [ownFieldsH1, List.append_assoc] using hcol (!(orderList r.header).isEmpty)
+  · simpa [ownFieldsH1, List.append_assoc] using hcol (!(orderList r.header).isEmpty)
+
+theorem filter_linesOf_key (k : Bytes) (l : List KV) :
+    (linesOf l).filter (fun x => x.1 == k) = linesOf (l.filter fun kv => kv.key == k) := by
+  induction l with
+  | nil => rfl
+  | cons x xs ih =>
+    rw [linesOf_cons, List.filter_append, ih]
+    cases hk : x.key == k with
+    | true =>
+      simp only [List.filter_cons, hk, if_true]
+      have hx : (linesOf [x]).filter (fun y => y.1 == k) = linesOf [x] := by
+        apply List.filter_eq_self.mpr
+        intro a ha
+        obtain ⟨kv, hkv, hke, _⟩ := mem_linesOf (k := a.1) (v := a.2) ha
+        simp at hkv; subst hkv; rw [← hke]; exact hk
+      rw [hx]
+      exact (linesOf_cons x _).symm
+    | false =>
+      simp only [List.filter_cons, hk, Bool.false_eq_true, if_false]
+      have : (linesOf [x]).filter (fun y => y.1 == k) = [] := by
+        apply List.filter_eq_nil_iff.mpr
+        intro a ha
+        obtain ⟨kv, hkv, hke, _⟩ := mem_linesOf (k := a.1) (v := a.2) ha
+        simp at hkv; subst hkv; rw [← hke]; simp [hk]
+      rw [this]; rfl
+
+theorem filter_key_nodup (h : Hdr) (hnd : (h.map (·.key)).Nodup) (kv : KV) (hm : kv ∈ h) :
+    h.filter (fun x => x.key == kv.key) = [kv] := by
+  induction h with
+  | nil => simp at hm
+  | cons x xs ih =>
+    simp only [List.map_cons, List.nodup_cons] at hnd
+    rcases List.mem_cons.mp hm with he | hin
+    · subst he
+      simp only [List.filter_cons, beq_self_eq_true, if_true]
+      congr 1
+      apply List.filter_eq_nil_iff.mpr
+      intro a ha hk
+      have : a.key = kv.key := by simpa using hk
+      exact hnd.1 (this ▸ List.mem_map_of_mem (f := (·.key)) ha)
+    · have hne : (x.key == kv.key) = false := by
+        cases hb : x.key == kv.key with
+        | false => rfl
+        | true =>
+          have : x.key = kv.key := by simpa using hb
+          exact absurd (this ▸ List.mem_map_of_mem (f := (·.key)) hin) hnd.1
+      simp only [List.filter_cons, hne, Bool.false_eq_true, if_false]
+      exact ih hnd.2 hin
+
+/-- **Multi-valued headers keep their values, once each and in the caller's order (HTTP/1.1)**:
+for a key of the header map (a Go map: keys distinct) that is a valid field name, not one the
+writer handles itself and not an extra-header name, the header lines with exactly that name are —
+top to bottom — the caller's values in the caller's order (each sanitised), header-order mode or
+not, wherever the sort puts the group. -/
+theorem value_order_h1 (r : WReq) (host : Bytes) (f : Framing) (kv : KV)
+    (hnd : (r.header.map (·.key)).Nodup) (hm : kv ∈ r.header)
+    (hex : reqWriteExcludeHeader.contains kv.key = false)
+    (hname : validHeaderFieldName kv.key = true)
+    (hown : kv.key ∉ ownKeysH1) (hextra : ∀ e ∈ r.extra, (e.key == kv.key) = false) :
+    (linesOf (h1Fields r host f)).filter (fun l => l.1 == kv.key) =
+      kv.values.map fun v => (kv.key, sanitizeValue v) := by
+  rw [filter_linesOf_key]
+  have hp := (h1Fields_perm r host f).filter (fun x => x.key == kv.key)
+  have hrhs : (ownFieldsH1 r host f ++ callerFields r.header reqWriteExcludeHeader ++
+      callerFields r.extra []).filter (fun x => x.key == kv.key) =
+      [⟨kv.key, kv.values.map sanitizeValue⟩] := by
+    rw [List.filter_append, List.filter_append]
+    have h1 : (ownFieldsH1 r host f).filter (fun x => x.key == kv.key) = [] := by
+      apply List.filter_eq_nil_iff.mpr
+      intro a ha hk
+      have : a.key = kv.key := by simpa using hk
+      exact hown (this ▸ ownFieldsH1_keys r host f a ha)
+    have h3 : (callerFields r.extra []).filter (fun x => x.key == kv.key) = [] := by
+      apply List.filter_eq_nil_iff.mpr
+      intro a ha
+      unfold callerFields at ha
+      obtain ⟨e, he, rfl⟩ := List.mem_map.mp ha
+      simp [hextra e (List.mem_filter.mp he).1]
+    have h2 : (callerFields r.header reqWriteExcludeHeader).filter (fun x => x.key == kv.key) =
+        [⟨kv.key, kv.values.map sanitizeValue⟩] := by
+      unfold callerFields
+      rw [List.filter_map, List.filter_filter]
+      have e : (r.header.filter fun a =>
+          ((fun x : KV => x.key == kv.key) ∘ fun kv : KV => (⟨kv.key, kv.values.map sanitizeValue⟩ : KV)) a &&
+            (!reqWriteExcludeHeader.contains a.key && validHeaderFieldName a.key)) =
+          r.header.filter (fun x => x.key == kv.key) := by
+        apply List.filter_congr
+        intro a _
+        cases hk : a.key == kv.key with
+        | false => simp [Function.comp, hk]
+        | true =>
+          have : a.key = kv.key := by simpa using hk
+          have hex' : ¬ kv.key ∈ reqWriteExcludeHeader := by simpa using hex
+          simp [Function.comp, this, hex', hname]
+      rw [e, filter_key_nodup r.header hnd kv hm]
+      rfl
+    rw [h1, h2, h3]; rfl
+  rw [hrhs] at hp
+  rw [List.perm_singleton.mp hp]
+  simp [linesOf]
+
+example :
+    (linesOf (h1Fields { method := [71, 69, 84], url := {}, header :=
+      [⟨[88, 45, 77], [[51], [49], [50]]⟩, ⟨[88, 45, 65], [[57]]⟩,
+       ⟨headerOrderKey, [[120, 45, 109], [120, 45, 97]]⟩] } [104] ⟨false, false, 0⟩)).filter
+      (fun l => l.1 == [88, 45, 77]) = [([88, 45, 77], [51]), ([88, 45, 77], [49]), ([88, 45, 77], [50])] := by
+  decide
+
 end Req.Props.C16Wire
